@@ -213,3 +213,16 @@ Lemma ack_queue_cap_spec pp ps : ack_queue_cap pp ps = eff_count pp + eff_count 
 Proof.
   unfold ack_queue_cap. pose proof (eff_count_pos pp). pose proof (eff_count_pos ps). lia.
 Qed.
+
+Lemma read_timeout_unbounded_refuted : exists m ka, ka < 65536 /\ ~ (0 < read_timeout m ka)%Z.
+Proof.
+  exists 9223372036854775807%Z, 0. split; [reflexivity|].
+  pose proof (proj1 read_timeout_unbounded_negative) as G. lia.
+Qed.
+
+Lemma tokens_ok pp ps tt :
+  0 < eff_count pp /\ eff_token_timeout tt <> 0%Z /\
+  ack_queue_cap pp ps = eff_count pp + eff_count ps /\ 2 <= ack_queue_cap pp ps.
+Proof.
+  exact (conj (eff_count_pos pp) (conj (eff_token_timeout_nonzero tt) (ack_queue_cap_spec pp ps))).
+Qed.
